@@ -614,6 +614,9 @@ Definition colbody (c : col) : string :=
 Lemma print_col_body : forall c, print_col c = String " " (colbody c).
 Proof. reflexivity. Qed.
 
+Lemma print_tuple_cons : forall c r, print_tuple (c :: r) = String " " (colbody c +++ print_tuple r).
+Proof. reflexivity. Qed.
+
 Lemma column_leads : forall pre msg c a post p ok cn0 ct0 r,
   msg = a +++ colbody c +++ post -> col_ok c = true -> is_bit (c_val c) = false -> p <> SQuoted ->
   (post = "" \/ exists post', post = String " " post') ->
@@ -630,4 +633,469 @@ Proof.
     replace (exp_colval c) with (mkCV (fst (exp_val (c_val c))) (c_type c) (snd (exp_val (c_val c))))
       by (unfold exp_colval; destruct (exp_val (c_val c)); reflexivity).
     apply value_leads; assumption.
+Qed.
+
+(* ------------------------------------------------------------------------------------------ *)
+(* a tuple: columns separated by single spaces *)
+
+Definition set_cols (ok : bool) (t : tuple) (r : parse_result) : parse_result :=
+  fold_left (fun r c => set_col ok (quote_ident (c_name c)) (exp_colval c) r) t r.
+
+Definition tuple_nobit (t : tuple) : bool := forallb (fun c => negb (is_bit (c_val c))) t.
+
+Lemma tuple_leads : forall pre msg rest c a fin p ok cn0 ct0 r,
+  msg = a +++ colbody c +++ print_tuple rest +++ fin ->
+  tuple_ok (c :: rest) = true -> tuple_nobit (c :: rest) = true -> p <> SQuoted ->
+  (fin = "" \/ exists fin', fin = String " " fin') ->
+  after_value pre msg (length a) (mkSt SColName p (length a) ok cn0 ct0) r fin
+              (length a + length (colbody c +++ print_tuple rest)) ok (set_cols ok (c :: rest) r).
+Proof.
+  intros pre msg. induction rest as [|c2 rest IH]; intros c a fin p ok cn0 ct0 r Hmsg Hok Hnb Hp Hfin.
+  - simpl in Hmsg. simpl print_tuple. rewrite sapp_nil_r.
+    simpl in Hok, Hnb. rewrite andb_true_r in Hok, Hnb. apply negb_true_iff in Hnb.
+    apply column_leads; assumption.
+  - simpl in Hok, Hnb. apply andb_prop in Hok. destruct Hok as [Hok1 Hok2].
+    apply andb_prop in Hnb. destruct Hnb as [Hnb1 Hnb2]. apply negb_true_iff in Hnb1.
+    set (post := String " " (colbody c2 +++ print_tuple rest +++ fin)).
+    assert (Hm1 : msg = a +++ colbody c +++ post).
+    { rewrite Hmsg. unfold post. rewrite print_tuple_cons. snorm. reflexivity. }
+    destruct (column_leads pre msg c a post p ok cn0 ct0 r Hm1 Hok1 Hnb1 Hp
+                ltac:(right; eexists; reflexivity)) as [_ A2].
+    destruct (A2 _ eq_refl) as [cn' [ct' L1]].
+    set (a2 := (a +++ colbody c) +++ String " " "").
+    assert (Hl2 : length a2 = S (length a + length (colbody c)))
+      by (unfold a2; rewrite !slen_app; simpl; lia).
+    assert (Hm2 : msg = a2 +++ colbody c2 +++ print_tuple rest +++ fin).
+    { rewrite Hm1. unfold a2, post. rewrite !sapp_assoc. reflexivity. }
+    assert (Hok' : tuple_ok (c2 :: rest) = true) by exact Hok2.
+    assert (Hnb' : tuple_nobit (c2 :: rest) = true) by exact Hnb2.
+    pose proof (IH c2 a2 fin SColValue ok cn' ct'
+                  (set_col ok (quote_ident (c_name c)) (exp_colval c) r)
+                  Hm2 Hok' Hnb' ltac:(discriminate) Hfin) as A.
+    rewrite Hl2 in A.
+    replace (length a + length (colbody c +++ print_tuple (c2 :: rest)))
+      with (S (length a + length (colbody c)) + length (colbody c2 +++ print_tuple rest)).
+    2:{ rewrite print_tuple_cons. rewrite !slen_app. simpl. rewrite !slen_app. lia. }
+    eapply after_value_prepend; [exact L1 | exact A].
+Qed.
+
+(* old-key: / new-tuple: markers in the ColumnName state *)
+Definition marker_flag (w : string) (ok : bool) : bool :=
+  if String.eqb w "old-key" then true else if String.eqb w "new-tuple" then false else ok.
+
+Lemma marker_leads : forall pre msg w a x post' p ok cn ct r,
+  msg = a +++ w +++ String ":" (String x post') -> scan false col_stop MTop w = true -> p <> SQuoted ->
+  exists p', p' <> SQuoted /\
+    leads pre msg (length a) (mkSt SColName p (length a) ok cn ct) r
+                  (length a + length w + 2)
+                  (mkSt SColName p' (length a + length w + 2) (marker_flag w ok) cn ct) r.
+Proof.
+  intros pre msg w a x post' p ok cn ct r Hmsg Hw Hp.
+  assert (Hlen : length msg = length a + length w + 2 + length post')
+    by (rewrite Hmsg, !slen_app; simpl; lia).
+  destruct (scan_leads pre msg SColName false col_stop (scans_colname pre msg) w MTop a _
+              (length a) (length a + length w) p (length a) ok cn ct r Hmsg Hw
+              ltac:(simpl; discriminate) (le_n _) Hp eq_refl eq_refl) as [p1 [Hp1 L1]].
+  exists p1. split; [exact Hp1|].
+  eapply leads_trans; [exact L1|].
+  assert (Hm2 : msg = (a +++ w) +++ String ":" (String x post')) by (rewrite sapp_assoc; exact Hmsg).
+  eapply leads_trans.
+  - apply leads_step with (i' := S (length a + length w)); [lia | | lia]. body_simpl.
+    assert (Hb : byte_at msg (length a + length w) = ":"%char)
+      by (rewrite <- slen_app; rewrite Hm2 at 1; rewrite byte_at_app; reflexivity).
+    rewrite Hb. simpl.
+    assert (Hsl : slice msg (length a) (length a + length w) = Some w) by (rewrite Hmsg; apply slice_mid).
+    rewrite Hsl. reflexivity.
+  - fold (marker_flag w ok).
+    apply (leads_skip pre msg (S (length a + length w))
+             (mkSt SColName p1 (length a + length w + 2) (marker_flag w ok) cn ct) r); simpl; lia.
+Qed.
+
+(* (no-tuple-data) *)
+Lemma notuple_leads : forall pre msg a p ok cn ct r,
+  msg = a +++ "(no-tuple-data)" ->
+  exists st', cur st' = SEnd /\
+    leads pre msg (length a) (mkSt SColName p (length a) ok cn ct) r (S (length msg)) st' (set_notuple r).
+Proof.
+  intros pre msg a p ok cn ct r Hmsg.
+  assert (Hlen : length msg = length a + 15) by (rewrite Hmsg, slen_app; reflexivity).
+  exists (mkSt SEnd p (length a) ok cn ct). split; [reflexivity|].
+  eapply leads_trans.
+  - apply leads_step with (i' := S (length a)); [lia | | lia]. body_simpl.
+    assert (Hb : byte_at msg (length a) = "("%char) by (rewrite Hmsg, byte_at_app; reflexivity).
+    rewrite Hb. simpl.
+    assert (Hsl : slice msg (length a) (length msg) = Some "(no-tuple-data)").
+    { rewrite Hlen. assert (E : msg = a +++ "(no-tuple-data)" +++ "") by (rewrite sapp_nil_r; exact Hmsg).
+      rewrite E. apply (slice_mid a "(no-tuple-data)" ""). }
+    rewrite Hsl. reflexivity.
+  - apply (leads_end_state pre msg (length msg - length a)); lia.
+Qed.
+
+Definition opt_body (t : option tuple) : string :=
+  match t with
+  | None => "(no-tuple-data)"
+  | Some [] => ""
+  | Some (c :: rest) => colbody c +++ print_tuple rest
+  end.
+
+Lemma print_tuple_opt_body : forall t, last_tuple_ok t = true ->
+  print_tuple_opt t = String " " (opt_body t).
+Proof.
+  intros [[|c rest]|] H; try reflexivity. discriminate.
+Qed.
+
+Definition apply_tuple (ok : bool) (t : option tuple) (r : parse_result) : parse_result :=
+  match t with None => set_notuple r | Some t => set_cols ok t r end.
+
+Lemma tuple_opt_leads : forall pre msg t a p ok cn ct r,
+  msg = a +++ opt_body t -> last_tuple_ok t = true -> tuple_no_bit t = true -> p <> SQuoted ->
+  exists st', cur st' = SEnd /\
+    leads pre msg (length a) (mkSt SColName p (length a) ok cn ct) r (S (length msg)) st' (apply_tuple ok t r).
+Proof.
+  intros pre msg [[|c rest]|] a p ok cn ct r Hmsg Hok Hnb Hp.
+  - discriminate.
+  - simpl in Hok, Hmsg.
+    assert (Hm : msg = a +++ colbody c +++ print_tuple rest +++ "") by (rewrite sapp_nil_r; exact Hmsg).
+    destruct (tuple_leads pre msg rest c a "" p ok cn ct r Hm Hok Hnb Hp (or_introl eq_refl)) as [A1 _].
+    exact (A1 eq_refl).
+  - apply notuple_leads. exact Hmsg.
+Qed.
+
+(* " old-key:" tuple " new-tuple:" — from the column-start position after "UPDATE: " *)
+Lemma old_section_leads : forall pre msg o a X p ok cn ct r,
+  msg = a +++ "old-key:" +++ print_tuple o +++ " new-tuple:" +++ String " " X ->
+  tuple_ok o = true -> tuple_nobit o = true -> p <> SQuoted ->
+  exists p' cn' ct', p' <> SQuoted /\
+    leads pre msg (length a) (mkSt SColName p (length a) ok cn ct) r
+      (length a + length ("old-key:" +++ print_tuple o +++ " new-tuple: "))
+      (mkSt SColName p' (length a + length ("old-key:" +++ print_tuple o +++ " new-tuple: ")) false cn' ct')
+      (set_cols true o r).
+Proof.
+  intros pre msg o a X p ok cn ct r Hmsg Hok Hnb Hp.
+  destruct o as [|c rest].
+  - (* empty old tuple: "old-key: new-tuple: " *)
+    simpl print_tuple in *.
+    assert (Hm1 : msg = a +++ "old-key" +++ String ":" (String " " ("new-tuple:" +++ String " " X)))
+      by (rewrite Hmsg; reflexivity).
+    destruct (marker_leads pre msg "old-key" a " " _ p ok cn ct r Hm1 eq_refl Hp) as [p1 [Hp1 L1]].
+    set (a2 := (a +++ "old-key") +++ String ":" (String " " "")).
+    assert (Hl2 : length a2 = length a + length "old-key" + 2) by (unfold a2; rewrite !slen_app; simpl; lia).
+    assert (Hm2 : msg = a2 +++ "new-tuple" +++ String ":" (String " " X))
+      by (rewrite Hmsg; unfold a2; snorm; reflexivity).
+    destruct (marker_leads pre msg "new-tuple" a2 " " X p1 (marker_flag "old-key" ok) cn ct r Hm2 eq_refl Hp1)
+      as [p2 [Hp2 L2]].
+    rewrite Hl2 in L2.
+    exists p2, cn, ct. split; [exact Hp2|].
+    replace (length a + length ("old-key:" +++ "" +++ " new-tuple: ")) with (length a + length "old-key" + 2 + length "new-tuple" + 2)
+      by (simpl; lia).
+    eapply leads_trans; [exact L1 | exact L2].
+  - set (fin := String " " ("new-tuple:" +++ String " " X)).
+    assert (Hm1 : msg = a +++ "old-key" +++ String ":" (String " " (colbody c +++ print_tuple rest +++ fin))).
+    { rewrite Hmsg. unfold fin. rewrite print_tuple_cons. snorm. reflexivity. }
+    destruct (marker_leads pre msg "old-key" a " " _ p ok cn ct r Hm1 eq_refl Hp) as [p1 [Hp1 L1]].
+    set (a2 := (a +++ "old-key") +++ String ":" (String " " "")).
+    assert (Hl2 : length a2 = length a + length "old-key" + 2) by (unfold a2; rewrite !slen_app; simpl; lia).
+    assert (Hm2 : msg = a2 +++ colbody c +++ print_tuple rest +++ fin)
+      by (rewrite Hm1; unfold a2; snorm; reflexivity).
+    destruct (tuple_leads pre msg rest c a2 fin p1 (marker_flag "old-key" ok) cn ct r Hm2 Hok Hnb Hp1
+                ltac:(right; eexists; reflexivity)) as [_ A2].
+    destruct (A2 _ eq_refl) as [cn' [ct' L2]]. rewrite Hl2 in L2.
+    set (a3 := (a2 +++ colbody c +++ print_tuple rest) +++ String " " "").
+    assert (Hl3 : length a3 = S (length a + length "old-key" + 2 + length (colbody c +++ print_tuple rest)))
+      by (unfold a3; rewrite !slen_app, Hl2; simpl; rewrite ?slen_app; lia).
+    assert (Hm3 : msg = a3 +++ "new-tuple" +++ String ":" (String " " X)).
+    { rewrite Hm2. unfold a3, fin. rewrite !sapp_assoc. reflexivity. }
+    destruct (marker_leads pre msg "new-tuple" a3 " " X SColValue (marker_flag "old-key" ok) cn' ct'
+                (set_cols (marker_flag "old-key" ok) (c :: rest) r) Hm3 eq_refl ltac:(discriminate))
+      as [p3 [Hp3 L3]].
+    rewrite Hl3 in L3.
+    exists p3, cn', ct'. split; [exact Hp3|].
+    replace (length a + length ("old-key:" +++ print_tuple (c :: rest) +++ " new-tuple: "))
+      with (S (length a + length "old-key" + 2 + length (colbody c +++ print_tuple rest)) + length "new-tuple" + 2).
+    2:{ rewrite print_tuple_cons. simpl. rewrite ?slen_app. simpl. rewrite ?slen_app. simpl. lia. }
+    eapply leads_trans; [exact L1|]. eapply leads_trans; [exact L2 | exact L3].
+Qed.
+
+(* ------------------------------------------------------------------------------------------ *)
+(* the relation part: [scan] is compositional, so the whole "schema"."table" (and a TRUNCATE's
+   comma separated list) is one segment of the Relation state *)
+
+Lemma scan_cons : forall br stop m c r,
+  scan br stop m (String c r) =
+    match m with
+    | MTop => if stop c then false
+              else if Ascii.eqb c dq then scan br stop MQuote r
+              else if (br && Ascii.eqb c "[")%bool then scan br stop MBrack r
+              else scan br stop MTop r
+    | MQuote => if Ascii.eqb c dq then
+                  match r with
+                  | EmptyString => true
+                  | String d _ => if Ascii.eqb d dq then scan br stop MQSkip r else scan br stop MTop r
+                  end
+                else scan br stop MQuote r
+    | MQSkip => scan br stop MQuote r
+    | MBrack => if Ascii.eqb c "]" then scan br stop MTop r else scan br stop MBrack r
+    end.
+Proof. reflexivity. Qed.
+
+Lemma scan_app : forall br stop A m B,
+  scan br stop m A = true -> head_byte B <> dq -> scan br stop MTop B = true ->
+  scan br stop m (A +++ B) = true.
+Proof.
+  intros br stop. induction A as [|c A IH]; intros m B HA HB HB'.
+  - destruct m; try discriminate. exact HB'.
+  - change (String c A +++ B) with (String c (A +++ B)).
+    rewrite scan_cons in HA. rewrite scan_cons. destruct m.
+    + destruct (stop c); [discriminate|].
+      destruct (Ascii.eqb c dq); [now apply IH|].
+      destruct (br && Ascii.eqb c "[")%bool; now apply IH.
+    + destruct (Ascii.eqb c dq); [|now apply IH].
+      destruct A as [|d A'].
+      * change ("" +++ B) with B. destruct B as [|d B']; [reflexivity|]. simpl in HB.
+        rewrite (proj2 (Ascii.eqb_neq _ _) HB). exact HB'.
+      * change (String d A' +++ B) with (String d (A' +++ B)). cbv beta iota.
+        change (String d (A' +++ B)) with (String d A' +++ B).
+        destruct (Ascii.eqb d dq); now apply IH.
+    + now apply IH.
+    + destruct (Ascii.eqb c "]"); now apply IH.
+Qed.
+
+Lemma scan_qualified : forall ns rel, scan false rel_stop MTop (qualified ns rel) = true.
+Proof.
+  intros. unfold qualified. apply scan_app.
+  - apply scan_quote_ident; [exact rel_stop_ident | reflexivity].
+  - simpl. discriminate.
+  - simpl. apply scan_quote_ident; [exact rel_stop_ident | reflexivity].
+Qed.
+
+Lemma scan_rels : forall rels, scan false rel_stop MTop (print_rels rels) = true.
+Proof.
+  induction rels as [|[ns rel] r IH]; [reflexivity|].
+  destruct r as [|x r]; [apply scan_qualified|].
+  change (print_rels ((ns, rel) :: x :: r)) with (qualified ns rel +++ ", " +++ print_rels (x :: r)).
+  apply scan_app; [apply scan_qualified | simpl; discriminate | simpl; exact IH].
+Qed.
+
+(* ------------------------------------------------------------------------------------------ *)
+(* "table " relation ": " operation ":" *)
+
+Lemma header_leads : forall pre msg R op T r,
+  msg = "table " +++ R +++ ": " +++ op +++ ":" +++ T ->
+  scan false rel_stop MTop R = true -> str_all not_colon op = true ->
+  exists p', p' <> SQuoted /\
+    leads pre msg 0 init_table_state r
+          (6 + length R + 2 + length op) (mkSt SOperation p' (6 + length R + 2) false "" "") (set_rel r R).
+Proof.
+  intros pre msg R op T r Hmsg HR Hop.
+  assert (Hlen : length msg = 6 + length R + 2 + length op + 1 + length T).
+  { rewrite Hmsg. simpl. rewrite !slen_app. simpl. rewrite !slen_app. simpl. lia. }
+  assert (L0 : leads pre msg 0 init_table_state r 6 init_table_state r)
+    by (apply (leads_skip pre msg 0 init_table_state r); simpl; lia).
+  set (a := "table ").
+  set (post1 := String ":" (String " " (op +++ String ":" T))).
+  assert (Hm1 : msg = a +++ R +++ post1) by (rewrite Hmsg; unfold a, post1; snorm; reflexivity).
+  destruct (scan_leads pre msg SRelation false rel_stop (scans_relation pre msg) R MTop a post1
+              6 (6 + length R) SInitial 6 false "" "" r Hm1 HR
+              ltac:(simpl; discriminate) (le_n _) ltac:(discriminate) eq_refl eq_refl) as [p1 [Hp1 L1]].
+  exists p1. split; [exact Hp1|].
+  assert (Hm2 : msg = (a +++ R) +++ post1) by (rewrite sapp_assoc; exact Hm1).
+  assert (Hl2 : length (a +++ R) = 6 + length R) by (rewrite slen_app; reflexivity).
+  assert (L2 : leads pre msg (6 + length R) (mkSt SRelation p1 6 false "" "") r
+                     (S (6 + length R)) (mkSt SOperation p1 (6 + length R + 2) false "" "") (set_rel r R)).
+  { apply leads_step; [lia | | lia]. body_simpl.
+    assert (Hb : byte_at msg (6 + length R) = ":"%char)
+      by (rewrite <- Hl2; rewrite Hm2 at 1; rewrite byte_at_app; reflexivity).
+    assert (Hn : byte_at msg (S (6 + length R)) = " "%char)
+      by (rewrite <- Hl2; rewrite Hm2 at 1; unfold post1; rewrite byte_at_app_S; reflexivity).
+    rewrite Hb, Hn. simpl.
+    assert (Hsl : slice msg 6 (6 + length R) = Some R) by (rewrite Hm1; apply (slice_mid a R post1)).
+    simpl in Hsl. rewrite Hsl. reflexivity. }
+  assert (L3 : leads pre msg (S (6 + length R)) (mkSt SOperation p1 (6 + length R + 2) false "" "") (set_rel r R)
+                     (6 + length R + 2) (mkSt SOperation p1 (6 + length R + 2) false "" "") (set_rel r R)).
+  { apply (leads_skip pre msg _ (mkSt SOperation p1 (6 + length R + 2) false "" "") (set_rel r R)); simpl; lia. }
+  set (a4 := (a +++ R) +++ String ":" (String " " "")).
+  assert (Hl4 : length a4 = 6 + length R + 2) by (unfold a4; rewrite slen_app, Hl2; simpl; lia).
+  assert (Hm4 : msg = a4 +++ op +++ String ":" T) by (rewrite Hm1; unfold a4, post1; snorm; reflexivity).
+  pose proof (op_leads pre msg op a4 (String ":" T) p1 (6 + length R + 2) false "" "" (set_rel r R) Hm4 Hop
+                ltac:(rewrite Hl4; lia)) as L4.
+  rewrite Hl4 in L4.
+  eapply leads_trans; [exact L0|]. eapply leads_trans; [exact L1|].
+  eapply leads_trans; [exact L2|]. eapply leads_trans; [exact L3 | exact L4].
+Qed.
+
+(* the iteration at the operation's colon *)
+Lemma body_op_colon : forall pre msg R op T p r,
+  msg = "table " +++ R +++ ": " +++ op +++ ":" +++ T -> head_byte T = " "%char ->
+  body pre msg (6 + length R + 2 + length op) (mkSt SOperation p (6 + length R + 2) false "" "") r =
+    if String.eqb op "TRUNCATE" then BBreak (mkSt STruncate p (6 + length R + 2) false "" "") (set_op r op)
+    else if pre then BBreak (mkSt SColName p (6 + length R + 2 + length op + 2) false "" "") (set_op r op)
+         else BNext (S (6 + length R + 2 + length op))
+                    (mkSt SColName p (6 + length R + 2 + length op + 2) false "" "") (set_op r op).
+Proof.
+  intros pre msg R op T p r Hmsg HT.
+  set (a4 := "table " +++ R +++ ": ").
+  assert (Hl4 : length a4 = 6 + length R + 2) by (unfold a4; simpl; rewrite slen_app; simpl; lia).
+  assert (Hm4 : msg = a4 +++ op +++ String ":" T) by (rewrite Hmsg; unfold a4; snorm; reflexivity).
+  assert (Hm5 : msg = (a4 +++ op) +++ String ":" T) by (rewrite sapp_assoc; exact Hm4).
+  assert (Hl5 : length (a4 +++ op) = 6 + length R + 2 + length op) by (rewrite slen_app, Hl4; reflexivity).
+  assert (Hb : byte_at msg (6 + length R + 2 + length op) = ":"%char)
+    by (rewrite <- Hl5; rewrite Hm5 at 1; rewrite byte_at_app; reflexivity).
+  assert (Hn : byte_at msg (S (6 + length R + 2 + length op)) = " "%char)
+    by (rewrite <- Hl5; rewrite Hm5 at 1; rewrite byte_at_app_S; exact HT).
+  assert (Hsl : slice msg (6 + length R + 2) (6 + length R + 2 + length op) = Some op)
+    by (rewrite <- Hl4; rewrite Hm4 at 1; apply slice_mid).
+  body_simpl. rewrite Hb, Hn. simpl. simpl in Hsl. rewrite Hsl. reflexivity.
+Qed.
+
+Lemma parse_table : forall pre X r,
+  parse pre ("table " +++ X) r =
+    match loop (length ("table " +++ X) + 2) pre ("table " +++ X) (length ("table " +++ X)) 0 init_table_state r with
+    | LOutOfFuel => OutOfFuel
+    | LRet o => o
+    | LDone st' r' => finish pre st' r'
+    end.
+Proof. intros. reflexivity. Qed.
+
+Lemma ends_parse : forall pre X r st' r',
+  ends pre ("table " +++ X) 0 init_table_state r (LDone st' r') ->
+  parse pre ("table " +++ X) r = finish pre st' r'.
+Proof.
+  intros pre X r st' r' H. rewrite parse_table. rewrite H; [reflexivity|].
+  split; [lia | intros; lia].
+Qed.
+
+(* ------------------------------------------------------------------------------------------ *)
+(* whole table messages *)
+
+Lemma truncate_parse : forall pre R T r,
+  scan false rel_stop MTop R = true -> head_byte T = " "%char ->
+  parse pre ("table " +++ R +++ ": " +++ "TRUNCATE" +++ ":" +++ T) r = Ok (set_op (set_rel r R) "TRUNCATE").
+Proof.
+  intros pre R T r HR HT.
+  set (msg := "table " +++ R +++ ": " +++ "TRUNCATE" +++ ":" +++ T).
+  destruct (header_leads pre msg R "TRUNCATE" T r eq_refl HR eq_refl) as [p1 [Hp1 L]].
+  pose proof (body_op_colon pre msg R "TRUNCATE" T p1 (set_rel r R) eq_refl HT) as Hb.
+  change (String.eqb "TRUNCATE" "TRUNCATE") with true in Hb. cbv iota in Hb.
+  assert (Hlen : 6 + length R + 2 + length "TRUNCATE" <= length msg).
+  { unfold msg. simpl. rewrite !slen_app. simpl. lia. }
+  pose proof (leads_ends _ _ _ _ _ _ _ _ _ L (ends_break _ _ _ _ _ _ _ Hlen Hb)) as E.
+  unfold msg in *. rewrite (ends_parse _ _ _ _ _ E). reflexivity.
+Qed.
+
+Lemma dml_prelude : forall R op T r,
+  scan false rel_stop MTop R = true -> str_all not_colon op = true ->
+  String.eqb op "TRUNCATE" = false -> head_byte T = " "%char ->
+  parse true ("table " +++ R +++ ": " +++ op +++ ":" +++ T) r = Ok (set_op (set_rel r R) op).
+Proof.
+  intros R op T r HR Hop Hnt HT.
+  set (msg := "table " +++ R +++ ": " +++ op +++ ":" +++ T).
+  destruct (header_leads true msg R op T r eq_refl HR Hop) as [p1 [Hp1 L]].
+  pose proof (body_op_colon true msg R op T p1 (set_rel r R) eq_refl HT) as Hb.
+  rewrite Hnt in Hb.
+  assert (Hlen : 6 + length R + 2 + length op <= length msg).
+  { unfold msg. simpl. rewrite !slen_app. simpl. rewrite !slen_app. lia. }
+  pose proof (leads_ends _ _ _ _ _ _ _ _ _ L (ends_break _ _ _ _ _ _ _ Hlen Hb)) as E.
+  unfold msg in *. rewrite (ends_parse _ _ _ _ _ E). reflexivity.
+Qed.
+
+Lemma dml_columns : forall R op T' r r3,
+  scan false rel_stop MTop R = true -> str_all not_colon op = true ->
+  String.eqb op "TRUNCATE" = false ->
+  (forall a p, "table " +++ R +++ ": " +++ op +++ ":" +++ String " " T' = a +++ T' -> p <> SQuoted ->
+     exists st', cur st' = SEnd /\
+       leads false ("table " +++ R +++ ": " +++ op +++ ":" +++ String " " T')
+             (length a) (mkSt SColName p (length a) false "" "") (set_op (set_rel r R) op)
+             (S (length ("table " +++ R +++ ": " +++ op +++ ":" +++ String " " T'))) st' r3) ->
+  parse false ("table " +++ R +++ ": " +++ op +++ ":" +++ String " " T') r = Ok r3.
+Proof.
+  intros R op T' r r3 HR Hop Hnt Htail.
+  set (msg := "table " +++ R +++ ": " +++ op +++ ":" +++ String " " T') in *.
+  destruct (header_leads false msg R op (String " " T') r eq_refl HR Hop) as [p1 [Hp1 L1]].
+  pose proof (body_op_colon false msg R op (String " " T') p1 (set_rel r R) eq_refl eq_refl) as Hb.
+  rewrite Hnt in Hb.
+  assert (Hlen : length msg = 6 + length R + 2 + length op + 2 + length T').
+  { unfold msg. simpl. rewrite !slen_app. simpl. rewrite !slen_app. simpl. lia. }
+  set (k := 6 + length R + 2 + length op) in *.
+  assert (L2 : leads false msg k (mkSt SOperation p1 (6 + length R + 2) false "" "") (set_rel r R)
+                     (S k) (mkSt SColName p1 (k + 2) false "" "") (set_op (set_rel r R) op))
+    by (apply leads_step; [rewrite Hlen; lia | exact Hb | lia]).
+  assert (L3 : leads false msg (S k) (mkSt SColName p1 (k + 2) false "" "") (set_op (set_rel r R) op)
+                     (k + 2) (mkSt SColName p1 (k + 2) false "" "") (set_op (set_rel r R) op))
+    by (apply (leads_skip false msg (S k) (mkSt SColName p1 (k + 2) false "" "")); simpl; lia).
+  set (a := "table " +++ R +++ ": " +++ op +++ ": ").
+  assert (Hla : length a = k + 2).
+  { unfold a, k. simpl. rewrite !slen_app. simpl. rewrite !slen_app. simpl. lia. }
+  assert (Hma : msg = a +++ T') by (unfold msg, a; snorm; reflexivity).
+  destruct (Htail a p1 Hma Hp1) as [st' [Hc L4]]. rewrite Hla in L4.
+  pose proof (leads_trans _ _ _ _ _ _ _ _ _ _ _ L1
+               (leads_trans _ _ _ _ _ _ _ _ _ _ _ L2 (leads_trans _ _ _ _ _ _ _ _ _ _ _ L3 L4))) as L.
+  pose proof (leads_ends _ _ _ _ _ _ _ _ _ L (ends_done _ _ _ _ _ (Nat.lt_succ_diag_r _))) as E.
+  unfold msg in *. rewrite (ends_parse _ _ _ _ _ E). unfold finish. rewrite Hc. reflexivity.
+Qed.
+
+(* the result record after a tuple *)
+Lemma set_cols_false : forall t a b c d m o,
+  set_cols false t (mkPR a b c d m o) = mkPR a b c d (exp_cols m t) o.
+Proof.
+  induction t as [|x t IH]; intros; [reflexivity|].
+  unfold set_cols in *. simpl. apply IH.
+Qed.
+
+Lemma set_cols_true : forall t a b c d m o,
+  set_cols true t (mkPR a b c d m o) = mkPR a b c d m (exp_cols o t).
+Proof.
+  induction t as [|x t IH]; intros; [reflexivity|].
+  unfold set_cols in *. simpl. apply IH.
+Qed.
+
+Lemma apply_tuple_false : forall t b c o,
+  apply_tuple false t (mkPR "" b c false [] o) = mkPR "" b c (is_none t) (opt_cols t) o.
+Proof. intros [t|] b c o; simpl; [apply set_cols_false | reflexivity]. Qed.
+
+(* a message whose only tuple comes right after the operation (INSERT, DELETE, UPDATE without
+   old key) *)
+Lemma simple_dml : forall R op t,
+  scan false rel_stop MTop R = true -> str_all not_colon op = true ->
+  String.eqb op "TRUNCATE" = false ->
+  last_tuple_ok t = true -> tuple_no_bit t = true ->
+  parse_full ("table " +++ R +++ ": " +++ op +++ ":" +++ print_tuple_opt t) =
+    Ok (mkPR "" R op (is_none t) (opt_cols t) []).
+Proof.
+  intros R op t HR Hop Hnt Hok Hnb. rewrite (print_tuple_opt_body t Hok).
+  unfold parse_full. rewrite (dml_prelude R op _ empty_result HR Hop Hnt eq_refl).
+  rewrite (dml_columns R op (opt_body t) _ (apply_tuple false t (mkPR "" R op false [] [])) HR Hop Hnt).
+  - now rewrite apply_tuple_false.
+  - intros a p Hma Hp. apply tuple_opt_leads; assumption.
+Qed.
+
+Lemma update_with_old : forall R o t,
+  scan false rel_stop MTop R = true ->
+  tuple_ok o = true -> tuple_nobit o = true ->
+  last_tuple_ok t = true -> tuple_no_bit t = true ->
+  parse_full ("table " +++ R +++ ": " +++ "UPDATE" +++ ":" +++
+              " old-key:" +++ print_tuple o +++ " new-tuple:" +++ print_tuple_opt t) =
+    Ok (mkPR "" R "UPDATE" (is_none t) (opt_cols t) (exp_cols [] o)).
+Proof.
+  intros R o t HR Hoo Hnbo Hok Hnb. rewrite (print_tuple_opt_body t Hok).
+  set (T' := "old-key:" +++ print_tuple o +++ " new-tuple:" +++ String " " (opt_body t)).
+  change (" old-key:" +++ print_tuple o +++ " new-tuple:" +++ String " " (opt_body t)) with (String " " T').
+  unfold parse_full. rewrite (dml_prelude R "UPDATE" _ empty_result HR eq_refl eq_refl eq_refl).
+  rewrite (dml_columns R "UPDATE" T' _
+             (apply_tuple false t (set_cols true o (mkPR "" R "UPDATE" false [] []))) HR eq_refl eq_refl).
+  - rewrite set_cols_true. now rewrite apply_tuple_false.
+  - intros a p Hma Hp.
+    set (msg := "table " +++ R +++ ": " +++ "UPDATE" +++ ":" +++ String " " T') in *.
+    assert (Hm1 : msg = a +++ "old-key:" +++ print_tuple o +++ " new-tuple:" +++ String " " (opt_body t))
+      by exact Hma.
+    destruct (old_section_leads false msg o a (opt_body t) p false "" ""
+                (set_op (set_rel empty_result R) "UPDATE") Hm1 Hoo Hnbo Hp) as [p2 [cn' [ct' [Hp2 L1]]]].
+    set (a2 := a +++ "old-key:" +++ print_tuple o +++ " new-tuple: ").
+    assert (Hl2 : length a2 = length a + length ("old-key:" +++ print_tuple o +++ " new-tuple: "))
+      by (unfold a2; rewrite slen_app; reflexivity).
+    assert (Hm2 : msg = a2 +++ opt_body t) by (rewrite Hm1; unfold a2; snorm; reflexivity).
+    destruct (tuple_opt_leads false msg t a2 p2 false cn' ct'
+                (set_cols true o (set_op (set_rel empty_result R) "UPDATE")) Hm2 Hok Hnb Hp2)
+      as [st' [Hc L2]].
+    rewrite Hl2 in L2. exists st'. split; [exact Hc|].
+    eapply leads_trans; [exact L1 | exact L2].
 Qed.
